@@ -29,9 +29,20 @@ Example C13_finalizer_window :
   match run init [SemCreate 0; SemRegister 0; SemGuard 0; SemCollect 0; Die 0; TrackerEOF 0] with
   | Some s => map s_exists (sems s) = [false] | None => False end.
 Proof. vm_compute. reflexivity. Qed.
+(* the start-up of a child (its _bootstrap) takes no finalizer away: a semaphore created while the main module was re-imported or
+   the process object unpickled is still unlinked when its object is collected (this was false on the pinned tree: finding W2,
+   repaired by fix d4e2fc6; with BaseProcess's behaviour the generated fact is false and this theorem does not check) *)
+Theorem C13_finalizers_survive_startup :
+  forall s p s', step s (Bootstrap p) = Some s' -> sems s' = sems s.
+Proof.
+  intros s p s' H. unfold step in H. destruct (nth_error (procs s) p) as [[[|] h]|]; try discriminate.
+  cbn in H. inversion H. reflexivity.
+Qed.
+Print Assumptions C13_finalizers_survive_startup.
 Theorem C13_structure :
   semlock_registers_then_installs_finalizer = true /\ semlock_cleanup_unlinks_then_unregisters = true
-  /\ semlock_copies_do_not_register = true /\ semlock_names_carry_creator_pid = true.
+  /\ semlock_copies_do_not_register = true /\ semlock_names_carry_creator_pid = true
+  /\ child_keeps_finalizers_registered_during_startup = true.
 Proof. repeat split; reflexivity. Qed.
 Print Assumptions C13_structure.
 Example C13_example :
